@@ -19,8 +19,8 @@ claimed = {
   technique=SIM + ": operation-level seeded schedule incl. a window-level yield inside writeSnapshotAndCommit, LWW model comparison after every step",
   ref="3 C02"),
  "C03": dict(
-  text="One batch written by the real PointsWriter to a shard with 1-5 owners on the fake clock; coordinator position, consistency level, per-owner outcome and answer time (before/after the timeout), busy handoff queue, handoff accept/refuse are drawn; success iff the level was met within the timeout, partial/failed classification, exactly-once handoff offers; in half of the runs hinted handoff is the real hh.Service whose queues must deliver after the owners heal.",
-  note="owners' stores and the meta client are stubs; answer times are distinct and never equal to the timeout so every race is decided by the plan",
+  text="One batch written by the real PointsWriter to a shard with 1-5 owners on the fake clock; coordinator position, consistency level, per-owner outcome and answer time (before/after the timeout), busy handoff queue, handoff accept/refuse are drawn; success iff the level was met within the timeout, partial/failed classification, exactly-once handoff offers; in half of the runs hinted handoff is the real hh.Service whose queues must deliver after the owners heal. Cluster mode (one run in eight): the whole write path with real components - 2-4 real data nodes (store, coordinator.Service behind tcp.Mux, ShardWriter with pools, PointsWriter, the real hinted-handoff service) on the simulated network and clock; the coordinator writes batches at drawn levels while other nodes are down, refuse, stall, reset, answer slowly or fail their local write; at the acknowledgement the points must be on as many owners as the level demands (any: stored or queued), after the heal everything handoff accepted must reach every reachable owner, and no owner may hold unwritten data.",
+  note="owners' stores and the meta client are stubs; answer times are distinct and never equal to the timeout so every race is decided by the plan; in cluster mode a node taken down stays down and the metadata is generated, not served by meta nodes",
   technique=SIM + ": testing/synctest fake clock, scripted owner outcomes/delays as the fault space, plan-derived oracle",
   ref="3 C03"),
  "C04": dict(
